@@ -676,7 +676,7 @@ func main() {
 		tier = os.Args[1]
 	}
 	R = mon.Start("C02", tier)
-	R.Rule = "every node of every DAG is hashed by tongo (caching Hasher, and fresh Cell.Hash for small DAGs/roots) and by the reference model; levels compared; synthetic DAGs over all five cell types and masks 0..7 delivered through the reference BOC writer, every cell of the real blocks/proofs, every bit length 0..1023, read-interference, cache reuse, construction paths (built, ReadBits, CopyRemaining, tlb.Any, prover output); added after the audit: cells hashed while still being built (hash, write bits / add refs to the cell or a descendant, hash again through Cell.Hash/Hash256/HashString/ToBoc), copies from CopyRemaining/ReadBits/ReadRemainingBits written to while the source must keep its hash, 19 read operations incl. GetLibraryHash/GetMerkleRoot on parsed and built cells, library/Merkle cells built with NewCellExotic over level-0 trees, pruned branches storing depth 999..1023 under exactly enough ancestors to reach depth 1024 at a lower level, one Hasher over two roots that share sub-DAGs; round 4: bags whose with-hashes cells store one wrong hash or depth (root / inner / leaf / exotic / pruned cell; one level, the top level or all levels; random, another cell's or a one-bit-off hash) must be refused or hashed by the definition through Cell.Hash/Hash256/HashString/Hasher.Hash on every node, never by the stored value, and the proof builder must report the defined level-0 hash and depth of such a root; non-trivial = a node whose hash was compared; distinct = distinct reference hashes (plus distinct interference traces)"
+	R.Rule = "every node of every DAG is hashed by tongo (caching Hasher, and fresh Cell.Hash for small DAGs/roots) and by the reference model; levels compared; synthetic DAGs over all five cell types and masks 0..7 delivered through the reference BOC writer, every cell of the real blocks/proofs, every bit length 0..1023, read-interference, cache reuse, construction paths (built, ReadBits, CopyRemaining, tlb.Any, prover output); added after the audit: cells hashed while still being built (hash, write bits / add refs to the cell or a descendant, hash again through Cell.Hash/Hash256/HashString/ToBoc), copies from CopyRemaining/ReadBits/ReadRemainingBits written to while the source must keep its hash, 19 read operations incl. GetLibraryHash/GetMerkleRoot on parsed and built cells, library/Merkle cells built with NewCellExotic over level-0 trees, pruned branches storing depth 999..1023 under exactly enough ancestors to reach depth 1024 at a lower level, one Hasher over two roots that share sub-DAGs; round 4: bags whose with-hashes cells store one wrong hash or depth (root / inner / leaf / exotic / pruned cell; one level, the top level or all levels; random, another cell's or a one-bit-off hash) must be refused or hashed by the definition through Cell.Hash/Hash256/HashString/Hasher.Hash on every node, never by the stored value, and the proof builder must report the defined level-0 hash and depth of such a root; round 5: roots of non-zero level (lone pruned branch, proof body with pruned branches of level 1-3, Merkle proof / update above such bodies) and random exotic DAGs obtained through every exported bytes/text entry point (DeserializeBoc, DeserializeSingleRootBoc, the hex / base64 / SinglRoot / Must helpers, Cell.UnmarshalJSON and tlb.Any.UnmarshalJSON into fresh, used and struct-field receivers, MarshalJSON->UnmarshalJSON), every node's hash and level compared; non-trivial = a node whose hash was compared; distinct = distinct reference hashes (plus distinct interference traces)"
 	R.Assume("reference hasher harness/ref/cell is correct: pinned at start-up by the Merkle proof/update equations in the repository's real data")
 	R.Assume("levels 2-3 occur only in synthetic DAGs; there the model is vouched for by the specification text only")
 	eq, cells, err := realdata.SelfCheck(mon.RepoRoot(), true)
@@ -696,6 +696,7 @@ func main() {
 	sectionDepth()
 	sectionDepthLevels()
 	sectionLyingStoredHashes()
+	sectionObtained()
 	sectionReal()
 	os.Exit(R.Finish())
 }
